@@ -127,7 +127,7 @@ def safe_checks(inp):
 
 
 def gen_input(rng, gauss):
-    N = rng.choice([2, 4, 6, 8, 16, 5, 9])
+    N = rng.choice([rng.choice([2, 4, 6, 8, 16, 5, 9]), rng.choice([2, 4, 6, 8, 16, 5, 9]), rng.randint(2, 64), rng.choice([26, 34, 38, 46, 58])])
     wvl = rng.uniform(0.4e-6, 2e-6); d1 = oc.gen_spacing(rng, wvl)
     return {"N": N, "wvl": wvl, "d1": d1, "nano": rng.loguniform(0.5, 5.0), "m": rng.choice([rng.uniform(0.5, 2.0), 2.0, 0.5]),
             "z": rng.choice([-1, 1]) * rng.loguniform(0.05, 20.0) * (N * d1 * d1 / wvl),
